@@ -50,6 +50,17 @@ CHECKS = {
             "signatures; every probe (precondition, snapshot, postcondition, error factory) logs the objects it received, compared by "
             "identity with what the body received and what Python's binder computes; foreign names must give TypeError.",
             "Executions produced only; exhaustive inside the stated bound; variadic parameter names themselves are a silent zone.", "3/C05"),
+    "C06": ("exploration", "runtime monitoring: hooked repr_values / violation messages judged against values recorded by an instrumented twin of the same condition executed by CPython",
+            "Generated condition expressions (typed grammar, depth <=4, shadowed builtins, None-bound arguments, function parameters "
+            "shadowing condition variables, closures) rendered into real files; every `X was V` entry of every generated message is "
+            "compared with the value CPython computed for that sub-expression text; completeness of names/attributes/calls/subscripts/"
+            "comprehensions and of call arguments; first falsifying assignment of all().",
+            "Executions produced only; f-string fields, class/function-valued results and comprehension-local values are silent zones.", "3/C06"),
+    "C07": ("exploration", "runtime monitoring: exception class at the caller, condition text recovered by the library (hooked) vs. generated expression, counting probes inside conditions vs. CPython's own evaluation",
+            "Guarded conditions with falsifying inputs and counting probes x four error forms, and a 30-layout matrix of decorator "
+            "source layouts (plus invariant layouts): the violation must surface as the configured error with location/description/"
+            "condition text that parses to the generated expression, and message building must not run probes CPython skipped.",
+            "Executions produced only; silent zones: lambdas outside decorators, inline lambdas, string literals resembling def/class.", "3/C07"),
     "C08": ("exploration", "runtime monitoring: capture events positioned in the probe log, OLD identity, definition-time misuse matrix",
             "Capture multiplicity/position judged on the observed event log for generated callables and hierarchies; OLD objects "
             "compared by identity with what captures returned; misuse programs must raise at definition.",
